@@ -7,6 +7,7 @@ using namespace vh;
 
 typedef std::map<int, Polyhedron*> Pool;
 static Pool pool;
+static std::string pending_extra;  // "ret b" / "tok n" lines, printed after the "res" line
 
 static Polyhedron* clone(const Polyhedron& p) {
   if (p.topology() == NECESSARILY_CLOSED) return new C_Polyhedron(static_cast<const C_Polyhedron&>(p));
@@ -130,7 +131,7 @@ static void do_op(Toks& tk) {
   else if (op == "H79_widening_assign_tp" || op == "BHRZ03_widening_assign_tp") {
     const Polyhedron& y = *get(tk.nextl()); unsigned t = tk.nextl();
     if (op[0] == 'H') x.H79_widening_assign(y, &t); else x.BHRZ03_widening_assign(y, &t);
-    std::cout << "tok " << t << "\n";
+    { std::ostringstream o_; o_ << "tok " << t << "\n"; pending_extra = o_.str(); }
   }
   else if (op == "limited_H79_extrapolation_assign" || op == "limited_BHRZ03_extrapolation_assign" ||
            op == "bounded_H79_extrapolation_assign" || op == "bounded_BHRZ03_extrapolation_assign") {
@@ -145,9 +146,9 @@ static void do_op(Toks& tk) {
     const Polyhedron& y = *get(tk.nextl()); bool b;
     if (x.topology() == NECESSARILY_CLOSED) b = static_cast<C_Polyhedron&>(x).upper_bound_assign_if_exact(static_cast<const C_Polyhedron&>(y));
     else b = static_cast<NNC_Polyhedron&>(x).upper_bound_assign_if_exact(static_cast<const NNC_Polyhedron&>(y));
-    std::cout << "ret " << (b ? 1 : 0) << "\n";
+    { std::ostringstream o_; o_ << "ret " << (b ? 1 : 0) << "\n"; pending_extra = o_.str(); }
   }
-  else if (op == "simplify_using_context_assign") { bool b = x.simplify_using_context_assign(*get(tk.nextl())); std::cout << "ret " << (b ? 1 : 0) << "\n"; }
+  else if (op == "simplify_using_context_assign") { bool b = x.simplify_using_context_assign(*get(tk.nextl())); { std::ostringstream o_; o_ << "ret " << (b ? 1 : 0) << "\n"; pending_extra = o_.str(); } }
   else throw std::runtime_error("case: unknown op " + op);
 }
 
@@ -213,7 +214,8 @@ int main(int argc, char** argv) {
       else if (cmd == "op") {
         int id = std::atoi(tk.t[1].c_str());
         // every other object mentioned as an argument is re-observed too (arguments must stay unchanged)
-        try { do_op(tk); std::cout << "res ok\n"; }
+        pending_extra.clear();
+        try { do_op(tk); std::cout << "res ok\n" << pending_extra; }
         catch (const std::exception& e) {
           if (std::string(e.what()).substr(0,5) == "case:") throw;
           std::cout << "res exn " << exn_class(e) << "\n";
